@@ -340,7 +340,13 @@ void Future<void>::Private::FastSignal::set()
 void Future<void>::Private::FastSignal::reset()
 {
   if (Atomic::swap(_state, 0) == 1)
+  {
     _signal.reset();
+    // a set() that came in after the swap has raised _state again and set the signal: the reset above may have cancelled that
+    // signal, and no later set() would repeat it as long as _state stays raised
+    if (Atomic::load(_state))
+      _signal.set();
+  }
 }
 
 bool Future<void>::Private::FastSignal::wait()
